@@ -562,8 +562,24 @@ def build(vc_path, repo_root, defines=None, canary=False, known_drops=None, stri
                         continue
                     # a function that did not exist in this block on the pinned tree: closed world - it is emitted verbatim,
                     # so a trait-impl method is checked against the trait's contract (or the unit becomes undecided)
-                    log.new_functions.append(key)
+                    is_trait_impl = b["kind"] == "impl" and any(t.text == "for" for t in item.header())
                     spec = FnSpec(sub.name, b["line"], keep=True)
+                    kind = "trait-impl method (checked against the trait's contract)" if is_trait_impl else "helper without contract"
+                    if not is_trait_impl and sub.body_open >= 0:
+                        # a new private helper whose body is one expression (the usual "extract a tiny helper" refactoring) gets the
+                        # contract `result == that expression`, so callers keep verifying; anything else stays contract-less
+                        body = sub.toks[sub.body_open:sub.body_close + 1]
+                        has_ret = any(t.text == "->" for t in sub.toks[sub.attrs_end:sub.body_open])
+                        try:
+                            single = rsscan.tail_start(body) == 1 and len(body) > 2 and not any(t.text in ("while", "for", "loop", "let", "return") for t in body)
+                        except ScanError:
+                            single = False
+                        if single and has_ret:
+                            expr = src.text[body[1].start:body[-2].end]
+                            spec = FnSpec(sub.name, b["line"], ret="verif_r", header=[("        ensures verif_r == (%s)" % " ".join(expr.split()), b["line"])])
+                            kind = "single-expression helper (auto contract: result == its body expression)"
+                            log.functions.pop() if False else None
+                    log.new_functions.append("%s [%s]" % (key, kind))
                 seen.add(sub.name)
                 emit_fn(out, src, sub, spec, log, where, canary, strip)
             elif sub.kind == "const" and sub.name in hoisted:
